@@ -67,7 +67,14 @@ impl Run {
     }
     pub fn line(&mut self, l: &str) -> bool {
         self.rt.enter(l);
-        self.idle(5000, 3000)
+        if self.idle(5000, 3000) {
+            return true;
+        }
+        // still running when the budget ran out: `enter` may only be called at the prompt (it
+        // debug_asserts that), so the next line is typed after a break, as a user would have to
+        self.rt.interrupt();
+        self.idle(5000, 10);
+        false
     }
     pub fn lines(&mut self, ls: &[String]) {
         for l in ls {
@@ -567,7 +574,29 @@ pub fn answer_find(req: &str) -> String {
     }
 }
 
+/// `VH_SHARD=i/n`: this process evaluates (and prints) only every n-th generated case, starting at
+/// the i-th; generation itself is identical in every shard, so the union of the shards is the layer.
+pub fn shard_take() -> bool {
+    use std::sync::atomic::{AtomicUsize, Ordering};
+    static COUNT: AtomicUsize = AtomicUsize::new(0);
+    static SHARD: std::sync::OnceLock<(usize, usize)> = std::sync::OnceLock::new();
+    let (i, n) = *SHARD.get_or_init(|| {
+        std::env::var("VH_SHARD")
+            .ok()
+            .and_then(|s| {
+                let (a, b) = s.split_once('/')?;
+                Some((a.parse().ok()?, b.parse().ok()?))
+            })
+            .filter(|(i, n): &(usize, usize)| *n > 0 && i < n)
+            .unwrap_or((0, 1))
+    });
+    COUNT.fetch_add(1, Ordering::Relaxed) % n == i
+}
+
 fn emit<W: Write>(w: &mut W, prop: &str, kind: &str, lines: &[String], replies: &[String]) {
+    if !shard_take() {
+        return;
+    }
     let mut all = lines.to_vec();
     if !replies.is_empty() {
         all.push("====".into());
@@ -719,7 +748,9 @@ pub fn gen_c13<W: Write>(w: &mut W, tier: &str, seed: u64) {
             // the property exempts exactly that line break
             continue;
         }
-        let ks: Vec<usize> = if steps <= 150 || tier == "thorough" { (1..steps.min(1500)).collect() } else { (0..40).map(|_| 1 + rng.below(steps.max(2) - 1)).collect() };
+        // (each case re-runs the program, so the exhaustive part is quadratic in the run length: bounded)
+        let (exh, smp) = if tier == "thorough" { (300, 120) } else { (150, 40) };
+        let ks: Vec<usize> = if steps <= exh { (1..steps).collect() } else { (0..smp).map(|_| 1 + rng.below(steps.max(2) - 1)).collect() };
         // earlier session history must not matter: a failed direct statement, a refused CONT, a direct STOP or a
         // finished run before the interrupted one (they all leave a saved continuation address behind)
         let pre: Vec<String> = match rng.below(6) {
